@@ -361,7 +361,8 @@ class Integer(Element):
 
     @convert.register
     def _convert_int(self, value: int):
-        value = self.enforce_length(value)
+        # ``int()`` strips subclasses (bool, IntEnum) whose str() isn't a number
+        value = self.enforce_length(int(value))
         return value
 
     @convert.register
@@ -387,7 +388,7 @@ class Integer(Element):
 
     @unconvert.register
     def _unconvert_int(self, value: int) -> str:
-        value = self.enforce_length(value)
+        value = self.enforce_length(int(value))
         return str(value)
 
 
